@@ -20,7 +20,7 @@ class MyList(list): pass
 ATOMS = (0, 1, -1, 2, True, False, None, 0.0, 1.0, 1.5, -0.0, "", "a", "'", chr(92), "{x}", b"", b"a", bytearray(b"a"),
          Decimal(0), Decimal(1), Decimal("1.5"), Fraction(0), Fraction(1), complex(1, 0), complex(0, 0), IE.ONE, IE.ZERO, SE.A,
          Ellipsis, NotImplemented, MyInt(1), MyStr("a"), float("inf"), float("nan"), 10 ** 30, int, len)
-SUB = (0, 1, True, False, None, 1.0, "a", Decimal(1), IE.ONE, MyInt(0), b"a", 2)
+SUB = (0, 1, True, False, None, 1.0, "a", Decimal(1), IE.ONE, MyInt(0), b"a", 2, float("nan"), float("inf"), -0.0, Fraction(1))
 
 def atom(s): return ATOMS[pick(s, len(ATOMS))]
 def sub(s): return SUB[pick(s, len(SUB))]
@@ -434,7 +434,7 @@ def build(tier, seed):
     m.ob("lit_container", "kind: int, n: int, s0: int, s1: int", "return lit_ok(container(kind, n, s0, s1))",
          pre=["0 <= kind <= 9", "0 <= n <= 2", "0 <= s0 < len(SUB)", "0 <= s1 < len(SUB)"], timeout=tmo * 2,
          family="get_literal_expr on containers of look-alikes",
-         bounds="10 container shapes (list, tuple, set, frozenset, dict, nested, tuple/list subclasses) x <=2 elements from 12 look-alikes")
+         bounds="10 container shapes (list, tuple, set, frozenset, dict, nested, tuple/list subclasses) x <=2 elements from 16 look-alikes (incl. nan, inf, -0.0)")
     m.ob("lit_range", "kind: int, a: int, b: int, c: int", "return lit_ok(rng(kind, a, b, c))",
          pre=["0 <= kind <= 1", "0 <= a <= 3", "0 <= b <= 3", "0 <= c <= 2"], timeout=tmo,
          family="get_literal_expr on slice/range", bounds="start, stop in [-1,2], step in [1,3]")
